@@ -14,6 +14,7 @@
                             during construction, the message's own datatype exactly once by its destructor
 -/
 import MultiProofs.MpiLemmas
+import MultiProofs.SerInj
 
 namespace Multi
 namespace C18
@@ -162,6 +163,23 @@ theorem pack_unpack_kth {α : Type} (v w : View) (hv : v.lay ≠ []) (hw : w.lay
   · intro p hp; apply u2; rw [← cw]; exact hp
   · have : (boxIndices w.exts).map (fun idx => md' (w.addr idx)) = ((boxIndices w.exts).map w.addr).map md' := by rw [List.map_map]; rfl
     rw [this, cw, List.map_map]; exact u3
+
+/-- `pack_unpack_kth` for views reachable from arrays (C01's `Reach`) on both sides: well-formedness and the distinct
+    locations of the destination follow from C01, so only "D ≥ 1" and "equal element counts" remain. -/
+theorem reachable_pack_unpack_kth {α : Type}
+    (bv : Int) (esv : List Ext) (hesv : ∀ e ∈ esv, e.first ≤ e.last) (v : View) (denv : Den) (hrv : Reach ⟨bv, Layout.ofExts esv⟩ v denv)
+    (bw : Int) (esw : List Ext) (hesw : ∀ e ∈ esw, e.first ≤ e.last) (w : View) (denw : Den) (hrw : Reach ⟨bw, Layout.ofExts esw⟩ w denw)
+    (hv : v.lay ≠ []) (hw : w.lay ≠ []) (sz : Int) (hsz : sz ≠ 0)
+    (hcount : (boxIndices v.exts).length = (boxIndices w.exts).length) (ms md : Int → α) :
+    let Lv := Message.ofElements (Ledger.init sz) (ElemRange.ofView v)
+    let Lw := Message.ofElements Lv.1 (ElemRange.ofView w)
+    ∃ packed md', pack ms sz Lv.2.buf (Lv.2.disps Lv.1) = some packed ∧
+      packed = (boxIndices v.exts).map (fun idx => ms (v.addr idx)) ∧
+      unpack md sz Lw.2.buf (Lw.2.disps Lw.1) packed = some md' ∧
+      (∀ p, p ∉ canonAddrs w → md' p = md p) ∧
+      (boxIndices w.exts).map (fun idx => md' (w.addr idx)) = (boxIndices v.exts).map (fun idx => ms (v.addr idx)) :=
+  pack_unpack_kth v w hv hw (reachable_wf bv esv hesv v denv hrv) (reachable_wf bw esw hesw w denw hrw) sz hsz hcount
+    (reachable_canonAddrs_nodup bw esw hesw w denw hrw) ms md
 
 /-! ### the datatype ledger -/
 
